@@ -15,6 +15,7 @@
 From Coq Require Import ZArith List Bool Lia Sorted.
 From Low Require Import Lib.Bits Lib.BitSeq Lib.Lex Lib.Bytes Spec.Bmtree Spec.PathSpec Spec.FromStr32Spec
   Spec.PathsOfSortedSpec Model.BmtreePath Model.BmtreePathStr Model.FromStr32 Model.LegacyPathsOf
+  Model.FromStr32Variants
   Proofs.FromStr32Proofs Proofs.FromStr32Order.
 Import ListNotations.
 Open Scope Z_scope.
@@ -256,6 +257,14 @@ Example C11_split_nonvacuous :
   FromStr32 [97; 98; 99] 4 36 = Some (20, 0x16263000) /\ 0x16263000 = 0x2c * 2 ^ 23 + 0x263000 /\
   split_ok 9 23 (9, 0x2c) (11, 0x263000) (20, 0x16263000) = true.
 Proof. repeat apply conj; vm_compute; reflexivity. Qed.
+
+(** (5) the clip of the byte limit at ceil(tobit/8) inside FromStr32 is an optimisation only:
+    without it (Model/FromStr32Variants.v) the result is the same on the whole domain *)
+Theorem C11_clip_redundant : forall s from w,
+  bytes_ok s -> 0 <= from -> 0 <= w <= 32 -> from + w + 7 < 2 ^ 31 -> 8 * zlen s < 2 ^ 31 ->
+  FromStr32_noclip s from (from + w) = FromStr32 s from (from + w).
+Proof. exact FromStr32_noclip_same. Qed.
+Print Assumptions C11_clip_redundant.
 
 (** non-vacuity: "a`" < "a\x00\xff"... : four sorted keys sharing their first 12 bits (0x61, 0x6_),
     window of 4 bits from bit 12: paths for nibbles 0, 1, 1, 2 -> three distinct, increasing *)
